@@ -7,14 +7,15 @@ class C12(Prop):
     rule = RULE % 4
     trusted_base = TB + ["the 'after the stream ended, before the callback' window is hit deterministically through the log::Log hook (the executor logs between register_execution_finish and the callback); "
                          "in production the same window is open to any other thread calling report_scheduled_to_finish()"]
-    assumptions = ["MAX_STREAMS 1: 'the Uni's close callback runs once after all executors' is exercised with a single executor"]
+    assumptions = ["the executor workloads use MAX_STREAMS 1; the latch cases use Unis with 1, 2 and 4 executors (limit 2, events of 10-30 ms)"]
     def suites(self, tier, rng):
         n = 150 if tier == "quick" else 3000
         st = [execgen.mk_status(s, rng.randint(1, 5)) for s in execgen.SCHEDS for _ in range(2 if tier == "quick" else 20)]
-        return [Suite("status", execgen.HEADER, st), Suite("exec", execgen.HEADER, [execgen.gen_case(rng, maxL=4) for _ in range(n)])]
+        la = [execgen.mk_latch(rng.choice([1, 2, 4]), rng.randint(0, 9), rng.choice([0, 5, 15, 105])) for _ in range(30 if tier == "quick" else 600)]
+        return [Suite("status", execgen.HEADER, st), Suite("latch", execgen.HEADER, la), Suite("exec", execgen.HEADER, [execgen.gen_case(rng, maxL=4) for _ in range(n)])]
     def oracle(self, case, recs): return execgen.oracle_c12(case, recs)
     def nontrivial(self, case, recs):
-        m = case.meta; return m["profile"] == "status" and m["sched"] != "never" or (m["profile"] == "exec" and len(m["items"]) >= 2)
+        m = case.meta; return (m["profile"] == "status" and m["sched"] != "never") or (m["profile"] == "latch" and m["M"] > 1) or (m["profile"] == "exec" and len(m["items"]) >= 2)
     def parse_replay(self, text):
         lines = [l for l in text.splitlines() if l.strip() and not l.startswith("#")]
         return Suite("replay", execgen.HEADER, [execgen.parse_case_line(l) for l in lines])
